@@ -54,7 +54,8 @@ func (m *Mutex) Lock() {
 		return
 	}
 	m.touch(t.Sim())
-	t.Park(simrt.OpLock, m.id, func() bool { return m.owner == nil }, func() { m.owner = t })
+	r := &mutexReq{m, t}
+	t.Park(simrt.OpLock, m.id, r.can, r.take)
 	atomic.LoadUint32(&m.hb)
 }
 
@@ -141,7 +142,8 @@ func (m *RWMutex) Lock() {
 		return
 	}
 	m.touch(t.Sim())
-	t.Park(simrt.OpLock, m.id, func() bool { return m.writer == nil && m.readers == 0 }, func() { m.writer = t })
+	r := &rwReq{m, t}
+	t.Park(simrt.OpLock, m.id, r.canW, r.takeW)
 	atomic.LoadUint32(&m.hbW)
 	atomic.LoadUint32(&m.hbR)
 }
@@ -180,7 +182,8 @@ func (m *RWMutex) RLock() {
 		return
 	}
 	m.touch(t.Sim())
-	t.Park(simrt.OpRLock, m.id, func() bool { return m.writer == nil }, func() { m.readers++ })
+	r := &rwReq{m, t}
+	t.Park(simrt.OpRLock, m.id, r.canR, r.takeR)
 	atomic.LoadUint32(&m.hbW)
 }
 
@@ -280,7 +283,7 @@ func (c *Cond) Wait() {
 	c.waiters = append(c.waiters, w)
 	s.BkUnlock()
 	c.L.Unlock()
-	t.Park(simrt.OpCondWait, c.id, func() bool { return w.signalled }, nil)
+	t.Park(simrt.OpCondWait, c.id, w.isSignalled, nil)
 	atomic.LoadUint32(&c.hb)
 	c.L.Lock()
 }
@@ -382,6 +385,43 @@ func (o *Once) Do(f func()) {
 			return
 		}
 		s.BkUnlock()
-		t.Park(simrt.OpCustom, 0, func() bool { return atomic.LoadUint32(&o.done) == 1 || !o.running }, nil)
+		t.Park(simrt.OpCustom, 0, o.settled, nil)
 	}
 }
+
+// The scheduler evaluates enabled/grant callbacks on its own goroutine; they are
+// methods (not closures) so that //go:norace covers them: the detector must not
+// see the scheduler touching lock bookkeeping that lives inside BFE's objects.
+type mutexReq struct {
+	m *Mutex
+	t *simrt.Task
+}
+
+//go:norace
+func (r *mutexReq) can() bool { return r.m.owner == nil }
+
+//go:norace
+func (r *mutexReq) take() { r.m.owner = r.t }
+
+type rwReq struct {
+	m *RWMutex
+	t *simrt.Task
+}
+
+//go:norace
+func (r *rwReq) canW() bool { return r.m.writer == nil && r.m.readers == 0 }
+
+//go:norace
+func (r *rwReq) takeW() { r.m.writer = r.t }
+
+//go:norace
+func (r *rwReq) canR() bool { return r.m.writer == nil }
+
+//go:norace
+func (r *rwReq) takeR() { r.m.readers++ }
+
+//go:norace
+func (w *condWaiter) isSignalled() bool { return w.signalled }
+
+//go:norace
+func (o *Once) settled() bool { return atomic.LoadUint32(&o.done) == 1 || !o.running }
